@@ -725,7 +725,8 @@ class StateScenario(Scenario):
         keys = list(dict.keys(t.value))
 
         def k():
-            if keys and rng.random() < 0.12:
+            inplace = self.prop in ("C01", "C06", "C12", "C15")      # (documents turn keys into text: not for the save/load scenarios)
+            if inplace and keys and rng.random() < 0.12:
                 # an existing key spelled as an equal value of another type (1 / 1.0 / True address the same entry)
                 e = rng.choice(keys)
                 if type(e) is int:
@@ -737,7 +738,7 @@ class StateScenario(Scenario):
             if keys and rng.random() < 0.3:
                 return rng.choice(keys)
             if not kf:
-                return rng.choice(["k1", "k2", "k3", "k1", "k2", "k3", 1, 1.0, True, 0, 2])
+                return rng.choice(["k1", "k2", "k3", "k1", "k2", "k3", 1, 1.0, True, 0, 2] if inplace else ["k1", "k2", "k3"])
             return values.gen_value(rng, kf, "valid" if rng.random() < 0.8 else self._want(st, rng), st.ctx)
 
         def v():
